@@ -264,7 +264,9 @@ def run_instance(payload):
                 for b in s:
                     I.ctx.assume(b != 10)
             I._s = s
-            r = I.call_repo('mpd_client::client::Subsystem::from_frame', [frame_with(b'changed', s)])
+            fr_ = frame_with(b'changed', s)
+            byref = any(e.func.argtypes and e.func.argtypes[0].lstrip().startswith('&') for e in P.impl_methods.get((None, 'from_frame'), []) if 'client' in e.func.name and 'Subsystem' in str(e.self_pat))
+            r = I.call_repo('mpd_client::client::Subsystem::from_frame', [ref_to(fr_) if byref else fr_])
             back = None
             if r.variant == 'Some':
                 sr = I.call_repo('mpd_client::client::Subsystem::as_str', [ref_to(r.fields[0])])
